@@ -356,9 +356,12 @@ pub fn c06_enum_spec(seed: u64, unit: u64) -> RunSpec {
 
 pub const C07_COMBOS: u64 = 1 + 4 + 16 + 64 + 256 + 1024;
 
-/// All 4^n decision vectors for n <= 5 visits: site S3 of WA matches exactly ArchT.
+/// All 4^n decision vectors for n <= 5 visits. Variant 0: site S3 (exactly ArchT); variant 1:
+/// site S0 (three matched archetypes, the n entities spread over them); variant 2: site S4 (all
+/// six archetypes). The variant is (unit / 1365) % 3, so 3 x 1365 units are one full sweep.
 pub fn c07_enum_spec(rs: u64, unit: u64) -> RunSpec {
     let mut c = unit % C07_COMBOS;
+    let variant = (unit / C07_COMBOS) % 3;
     let mut n = 0u32;
     let mut pow = 1u64;
     while c >= pow {
@@ -367,19 +370,26 @@ pub fn c07_enum_spec(rs: u64, unit: u64) -> RunSpec {
         n += 1;
     }
     let mut rng = crate::gen::Rng::new(rs);
+    let (site, archs): (u8, &[u8]) = match variant {
+        0 => (3, &[3]),
+        1 => (0, &[0, 1, 3]),
+        _ => (4, &[0, 1, 2, 3, 4, 5]),
+    };
     let extra = rng.below(4) as u32;
     let mut ops = Vec::new();
     for _ in 0..(n + extra) {
-        ops.push(Op::Create { a: 3, lvl: Lvl::Arch, p: rng.next() });
+        let a = archs[rng.below(archs.len() as u64) as usize];
+        ops.push(Op::Create { a, lvl: if rng.chance(1, 2) { Lvl::Arch } else { Lvl::World }, p: rng.next() });
     }
     for _ in 0..extra {
         ops.push(Op::Destroy { h: Sel { class: SEL_LIVE, n: rng.next() as u32 }, typed: true, lvl: Lvl::Arch, cross: 0, over: false, dp: None });
     }
     let steps = [Step::Continue, Step::Break, Step::ContinueDestroy, Step::BreakDestroy];
     let plan: Vec<VisitAct> = (0..n).map(|i| VisitAct { step: steps[((c >> (2 * i)) & 3) as usize], w: None, inner: Inner::Nothing, panic: false }).collect();
-    ops.push(Op::Query { site: 3, mac: QMacro::IterDestroy, key: None, plan, dp: None });
-    ops.push(Op::Create { a: 3, lvl: Lvl::World, p: rng.next() });
-    RunSpec { world: "WA".into(), caps: vec![0, 0, 0, rng.below(4) as u32, 0, 0], ops, crash_after: None }
+    ops.push(Op::Query { site, mac: QMacro::IterDestroy, key: None, plan, dp: None });
+    ops.push(Op::Create { a: archs[0], lvl: Lvl::World, p: rng.next() });
+    let caps: Vec<u32> = (0..6).map(|_| rng.below(4) as u32).collect();
+    RunSpec { world: "WA".into(), caps, ops, crash_after: None }
 }
 
 /// Initial capacities 0..=64 enumerated, each followed by a seeded churn history and refills.
